@@ -101,6 +101,9 @@ def random_history(ctx, srv, g, n, label='rand', dbs=(0,)):
         for j in range(n):
             cid = ensure_conn(s, cid)
             a = g.next()
+            if isinstance(a, tuple) and a[0] == 'sleep':
+                time.sleep(a[1] / 1000.0)
+                continue
             s.cmd(cid, a)
         cid = ensure_conn(s, cid)
         for d in dbs:
@@ -577,3 +580,72 @@ def replay_pubsub_paths(ctx, srv, paths, label='gen'):
         if not srv.alive():
             srv.restart()
     return ok
+
+
+class ExpiryGen(Pool):
+    """C02 traffic: short real TTLs on keys of every type, reads and writes through every command family placed before,
+    around and after the deadlines, TTL removal/extension, RENAME, emptying and re-creating, and pauses."""
+
+    def __init__(self, rnd):
+        Pool.__init__(self, rnd)
+        self.keys = [b'e1', b'e2', b'e3', b'e4', b'e5', b'e6']
+        self.n = 0
+
+    def ttl_ms(self):
+        return str(self.rnd.choice([30, 50, 80, 120, 200, 400])).encode()
+
+    def next(self):
+        r = self.rnd
+        k = self.key()
+        c = r.randrange(60)
+        if c < 4: return ('sleep', r.choice([5, 20, 40, 60, 100]))
+        if c == 4: return ('sleep', r.choice([300, 600]))
+        if c < 8: return [b'SET', k, b'v', b'PX', self.ttl_ms()]
+        if c < 10: return [b'PEXPIRE', k, self.ttl_ms()]
+        if c == 10: return [b'EXPIRE', k, r.choice([b'1', b'100'])]
+        if c == 11: return [b'PSETEX', k, self.ttl_ms(), b'v2']
+        if c == 12: return [b'SET', k, b'10']                      # overwrite clears the TTL
+        if c == 13: return [b'GETSET', k, b'11']
+        if c == 14: return [b'MSET', k, b'12']
+        if c == 15: return [b'PERSIST', k]
+        if c == 16: return [b'RENAME', k, self.key()]
+        if c == 17: return [b'PEXPIRE', k, b'100000']              # extend
+        if c < 20: return [b'RPUSH', k, b'a', b'b']
+        if c == 20: return [b'LPOP', k]
+        if c == 21: return [b'SADD', k, b'a']
+        if c == 22: return [b'SREM', k, b'a']
+        if c == 23: return [b'HSET', k, b'f', b'1']
+        if c == 24: return [b'HDEL', k, b'f']
+        if c == 25: return [b'ZADD', k, b'1', b'a']
+        if c == 26: return [b'ZREM', k, b'a']
+        if c == 27: return [b'DEL', k]
+        if c < 31: return [b'GET', k]
+        if c == 31: return [b'EXISTS', k]
+        if c == 32: return [b'TYPE', k]
+        if c == 33: return [b'TTL', k]
+        if c == 34: return [b'PTTL', k]
+        if c == 35: return [b'INCR', k]
+        if c == 36: return [b'APPEND', k, b'x']
+        if c == 37: return [b'STRLEN', k]
+        if c == 38: return [b'LLEN', k]
+        if c == 39: return [b'LRANGE', k, b'0', b'-1']
+        if c == 40: return [b'SCARD', k]
+        if c == 41: return [b'SMEMBERS', k]
+        if c == 42: return [b'HGETALL', k]
+        if c == 43: return [b'HLEN', k]
+        if c == 44: return [b'ZCARD', k]
+        if c == 45: return [b'ZRANGE', k, b'0', b'-1']
+        if c == 46: return [b'KEYS', b'*']
+        if c == 47: return [b'DBSIZE']
+        if c == 48: return [b'SETNX', k, b'nx']
+        if c == 49: return [b'SET', k, b'xx', b'XX']
+        if c == 50: return [b'MGET', k, self.key()]
+        if c == 51: return [b'RANDOMKEY']
+        if c == 52: return [b'RENAMENX', k, self.key()]
+        if c == 53: return [b'SETRANGE', k, b'1', b'z']
+        if c == 54: return [b'GETRANGE', k, b'0', b'-1']
+        if c == 55: return [b'SISMEMBER', k, b'a']
+        if c == 56: return [b'HGET', k, b'f']
+        if c == 57: return [b'ZSCORE', k, b'a']
+        if c == 58: return [b'LPUSH', k, b'h']
+        return [b'SET', k, b'v', b'PX', self.ttl_ms()]
